@@ -227,6 +227,9 @@ func genC10(g *Gen) error {
 		fps = append(fps, [2]string{e[0][strings.LastIndexByte(e[0], '/')+1:] + ":" + name, fp})
 	}
 	g.PairList("fingerprints", fps)
+	if err := genC10Bytes(g); err != nil {
+		return err
+	}
 	g.Footer()
 	return nil
 }
